@@ -5,7 +5,7 @@
 //! `Take`, run B mirrors it on `managed::Pool<Manager>` (`Object::take`) and
 //! the per-op observations of both runs are compared.
 
-use std::{ops::DerefMut, sync::Once, time::Duration};
+use std::{future::Future, ops::DerefMut, sync::Once, time::Duration};
 
 use deadpool::managed::{Object, Pool, PoolError, QueueMode, TimeoutType};
 use deadpool_redis::Manager;
@@ -161,6 +161,11 @@ async fn client<W>(
                 tokio::time::sleep(Duration::from_millis(ms)).await;
                 w(|w| w.op_end(ci, idx, "Sleep", "ok", ""));
             }
+            Op::Migrate => {
+                w(|w| w.op_begin(ci, idx, "Migrate"));
+                world::request_migration();
+                w(|w| w.op_end(ci, idx, "Migrate", "ok", ""));
+            }
         }
         tokio::task::yield_now().await;
     }
@@ -226,7 +231,8 @@ where
             trace,
         ));
     }
-    let virtual_ms = rt.block_on(async {
+    let migrates = sc.clients.iter().any(|c| c.iter().any(|o| matches!(o, Op::Migrate)));
+    let main = async {
         let t0 = tokio::time::Instant::now();
         let manager = Manager::new("redis://sim.invalid/").expect("manager");
         let pool: Pool<Manager, W> = Pool::<Manager, W>::builder(manager)
@@ -275,7 +281,44 @@ where
             tokio::task::yield_now().await;
         }
         t0.elapsed().as_millis() as u64
-    });
+    };
+    let virtual_ms = if !migrates {
+        rt.block_on(main)
+    } else {
+        // phases: each one polls the run's top-level future on a fresh OS thread until a client
+        // asks for the next migration; strictly one thread at a time, so still deterministic
+        let mut main = Box::pin(main);
+        let mut carried = world::take_world();
+        let mut done: Option<u64> = None;
+        let mut phases = 0u64;
+        while done.is_none() {
+            phases += 1;
+            std::thread::scope(|s| {
+                let _ = s.spawn(|| {
+                    world::set_world(carried.take().expect("world"));
+                    let r = rt.block_on(std::future::poll_fn(|cx| {
+                        world::set_main_waker(cx.waker().clone());
+                        match main.as_mut().poll(cx) {
+                            std::task::Poll::Ready(v) => std::task::Poll::Ready(Some(v)),
+                            std::task::Poll::Pending => {
+                                if world::take_migration_request() {
+                                    std::task::Poll::Ready(None)
+                                } else {
+                                    std::task::Poll::Pending
+                                }
+                            }
+                        }
+                    }));
+                    carried = world::take_world();
+                    done = r;
+                });
+            });
+        }
+        let mut wd = carried.expect("world");
+        *wd.faults.entry("os_thread_migration".into()).or_insert(0) += phases - 1;
+        world::set_world(wd);
+        done.unwrap()
+    };
     drop(rt);
     let world = world::take_world().expect("world");
     ModeResult { world, virtual_ms }
